@@ -111,6 +111,15 @@ Theorem C11_reviver_deletes_all : forall m f,
 Proof. exact reviver_deletes_all. Qed.
 Print Assumptions C11_reviver_deletes_all.
 
+(* 15.12.3 JO with a property list reads every listed name with [[Get]]: a member of the
+   prototype chain is emitted when the list names it, and not otherwise *)
+Theorem C11_property_list_reads_chain : forall k,
+  stringify es5 (ObjH [] [(k, Null)]) (RList [PStr k]) SNone
+    = SText (123 :: (quote_fl es5 k ++ 58 :: [110; 117; 108; 108]) ++ [125]) /\
+  stringify es5 (ObjH [] [(k, Null)]) RNone SNone = SText [123; 125].
+Proof. exact property_list_reads_chain. Qed.
+Print Assumptions C11_property_list_reads_chain.
+
 (* 15.12.3 step 4.b: the property list, of the model with or without otto's
    remaining deviations, never holds a name twice (the array-replacer defect
    was repaired by c349b98: the model's list is the ES5 list K) *)
